@@ -61,6 +61,27 @@ void do_trigger(gsim::Op op)
     auto t = make_trigger(line);
     for (int y = 0; y < op.c; y++) gsim::yield();
     S->datum[line] = 42 + line;  // plain write, published by the trigger's destruction
+    if (op.b % 6 == 5) {
+        // move-assignment between two live triggers on two private lines: the
+        // moved-from object's destruction must not trip anything, the target now
+        // carries the source's duty
+        auto lx = make_tripline();
+        auto ly = make_tripline();
+        TripWireDetector dx(lx), dy(ly);
+        auto keeper = std::make_unique<TripWireTrigger>(lx);
+        auto temp = std::make_unique<TripWireTrigger>(ly);
+        *keeper = std::move(*temp);
+        bool x0 = dx.isTripped(), y0 = dy.isTripped();
+        temp.reset();
+        if (dx.isTripped() != x0 || dy.isTripped() != y0)
+            gsim::fail("moved_from_tripped", "destroying a moved-from trigger (after a move "
+                       "assignment) tripped a line");
+        keeper.reset();
+        if (!dy.isTripped())
+            gsim::fail("not_tripped", "the target of a move assignment did not trip the source's "
+                       "line when it was destroyed");
+        gsim::probe("trip.move_assign_between_live_triggers");
+    }
     switch (op.b % 5) {
         case 0:  // plain destruction
             begun(line);
@@ -188,7 +209,7 @@ void run()
                 if (role == 0 && !triggered[line]) {
                     // at most one duty-holder per line: "the first trigger destroyed" is then unambiguous
                     triggered[line] = true;
-                    gsim::prog_add(t, {OP_TRIGGER, line, gsim::gen_int(5), gsim::gen_int(3)});
+                    gsim::prog_add(t, {OP_TRIGGER, line, gsim::gen_int(30), gsim::gen_int(3)});
                 } else if (st.is_static && gsim::gen_int(8) == 0) {
                     gsim::prog_add(t, {OP_BAD_INDEX, gsim::gen_int(4), gsim::gen_int(2), 0});
                 } else {
